@@ -26,9 +26,9 @@ def _custom(spec, tier, seed, res, repo):
 SPEC = {
     "id": "C10",
     "level": "exploration",
-    "level_text": "The real cache code (cache.c through its internal API, plus vbi_chsw_reset / vbi_is_cached / vbi_cache_hi_subno of a real decoder) is driven through (a) every operation sequence of length 5 (quick) / 6 (thorough) over four 10-operation alphabets and seven (alphabet, memory limit) configurations, each sequence replayed from an empty cache - complete for that bounded sub-space - and (b) random histories of 50-2000 operations (put with 12 page function/size classes, get with masks, is-cached, highest-subpage, ref, unref, foreach, page-type updates, channel switches, overlapping network handles) under ASan+UBSan with the library's own CACHE_CONSISTENCY assertions on. After every operation a reference map decides every lookup result / returned version / content, and a structural audit walks hash chains, priority, referenced and networks lists itself and checks every counter and memory_used; at the end all references are released, the cache deleted, and the heap must be back at its baseline (malloc interposition) / LeakSanitizer silent. Held on the executions produced; beyond the enumerated depth this is sampling, not a proof.",
+    "level_text": "The real cache code (cache.c through its internal API, plus vbi_chsw_reset / vbi_is_cached / vbi_cache_hi_subno of a real decoder) is driven through (a) every operation sequence of length 5 (quick) / 6 (thorough) over four 10-operation alphabets and seven (alphabet, memory limit) configurations, each sequence replayed from an empty cache - complete for that bounded sub-space - and (b) random histories of 50-2000 operations (put with 12 page function/size classes, get with masks, is-cached, highest-subpage, ref, unref, foreach, page-type updates, channel switches, overlapping network handles) under ASan+UBSan with the library's own CACHE_CONSISTENCY assertions on. After every operation a reference map decides every lookup result / returned version / content, and a structural audit walks hash chains, priority, referenced and networks lists itself and checks every counter and memory_used; at the end all references are released, the cache deleted, and the heap must be back at its baseline (malloc interposition) / LeakSanitizer silent. (c) The same structures are audited from the side of the cache's clients inside the library: a generated Teletext transmission (pages of every function, BTT/AIT/MPT/MOT/MIP page-type updates, POP/DRCS, subpages, clock subcodes, eviction pressure, channel switches by API, time gap and vbi_chsw_reset) runs through a real vbi_decoder, with fetch/title/classify/search calls in between, and after every public call the harness walks vbi->ca: structure and counters as above, every page reference attributable to the harness (the library keeps none across calls), held pages byte-identical until released, look-ups / is-cached / highest-subpage agree with the walk, nothing reachable right after a channel switch, heap back at the baseline after vbi_decoder_delete. Held on the executions produced; beyond the enumerated depth this is sampling, not a proof.",
     "level_note": "Trusted: the reference map and key rules in harness/c10_cache.c (written from the comments in _vbi_cache_put_page / cache-priv.h, self-tested on hand vectors), the audit's reading of cache-priv.h structures, gcc ASan/UBSan/LSan, lib/vf_heap.c. memory_limit is set by writing the field while the cache is empty (libzvbi 0.2 has no call to lower it). Eviction is treated as nondeterministic policy: which unreferenced page goes is not checked, only that eviction happens solely in operations that do not fit the limit, stops as soon as the operation fits, and never hits referenced pages. Network structures never become zombies through this API (only vbi_cache_delete with references outstanding produces them), so that state is not explored.",
-    "technique": "runtime monitoring: history + executable reference model (MRU-stamped version map), structural invariant audit after every operation, heap-baseline / LeakSanitizer conservation check, ASan/UBSan; bounded-exhaustive enumeration of operation sequences plus random histories",
+    "technique": "runtime monitoring: history + executable reference model (MRU-stamped version map), structural invariant audit after every operation, heap-baseline / LeakSanitizer conservation check, ASan/UBSan; bounded-exhaustive enumeration of operation sequences plus random histories; structural audit and reference attribution after every public call of a real decoder fed with generated transmissions",
     "rule": "exhaustive job: one case = all completions (to the tier's depth) of one 3-operation prefix in one (alphabet, memory limit) configuration, each history replayed from an empty cache; random job: one case = one random history. Signature = abstract cache state reached after an operation (#pages, #referenced, #zombie pages, #networks, #zombie networks, memory-pressure seen, class of the operation); trivial = no history of the case holds a page reference across a put.",
     "assumptions": [
         "the harness is the only client of the cache (single thread), so every reference count is attributable",
@@ -36,6 +36,7 @@ SPEC = {
         "memory_limit >= the largest page (4504 bytes) in every configuration, so a put never legitimately fails; allocation failure is not injected",
         "foreach is only required to return (1 iff the callback stopped it, -1 after it went around unstopped, 0 on a network without pages), to hand out stored, intact pages of the right network, at least one if any is stored, and to restore reference counts (visiting order/completeness belongs to C17)",
         "subcodes handed to put lie in the Teletext subcode domain 0..0x3F7F (packet.c masks them so; the cache asserts it for hex pages)",
+        "decoder-driven jobs: the library holds no page reference across public calls (true of every get/put site in packet.c, teletext.c, vbi.c, search.c on this tree), so a page on the referenced list that the harness does not hold is a reference that was not released; in-place re-labelling POP->GPOP, DRCS->GDRCS, UNKNOWN->LOP by the formatter is followed, not reported; idle network structures are reclaimed lazily (policy)",
         "eviction is policy, but bounded: a page of a held network may disappear only in an operation that did not fit the limit, and only as far as needed (the largest page that went, put back, must exceed the limit)",
     ],
     "jobs": [
@@ -47,6 +48,12 @@ SPEC = {
          "params": {"p2": 64}, "budget": 30},
         {"name": "heap", "harness": "c10_cache", "srcs": ["harness/c10_cache.c"], "flavour": "plain", "heap": True,
          "mode": "rand", "cases": {"quick": 16000, "thorough": 800000}, "budget": 30},
+        # the cache seen from its clients inside the library: a generated Teletext transmission through the real decoder,
+        # structural audit + reference attribution after every public call (harness/c10_decoder.c)
+        {"name": "decoder-asan", "harness": "c10_decoder", "srcs": ["harness/c10_decoder.c"], "flavour": "asan",
+         "mode": "dec", "cases": {"quick": 1600, "thorough": 64000}, "budget": 30},
+        {"name": "decoder-heap", "harness": "c10_decoder", "srcs": ["harness/c10_decoder.c"], "flavour": "plain", "heap": True,
+         "mode": "dec", "cases": {"quick": 1600, "thorough": 64000}, "budget": 30},
     ],
     "custom": _custom,
     "min_distinct": 150,
@@ -57,5 +64,11 @@ SPEC = {
                      "hi_subno_queries": 10000, "is_cached_queries": 1000, "page_type_updates": 1000,
                      "hi_subno_after_removal": 1000, "puts_replacing": 10000, "foreach_not_stopped": 1000, "evictions_by_reuse": 100,
                      "eviction_necessity_checks": 1000, "network_structs_recycled": 1000, "get_misses": 10000, "page_refs": 1000,
-                     "ops_under_memory_pressure": 10000},
+                     "ops_under_memory_pressure": 10000,
+                     # decoder-driven jobs (harness/c10_decoder.c)
+                     "dec_frames": 100000, "dec_structural_audits": 200000, "dec_holds": 10000, "dec_held_pages_replaced": 1000,
+                     "dec_pages_held_across_channel_switch": 1000, "dec_channel_switches": 1000, "dec_fetches_ok": 5000,
+                     "dec_lookup_checks": 50000, "dec_hi_subno_checks": 50000, "dec_page_event_checks": 5000,
+                     "dec_btt_transmissions": 2000, "dec_subtitle_pages_by_btt": 2000, "dec_frames_under_memory_pressure": 20000,
+                     "dec_teardown_heap_checks": 1000, "dec_teardown_leak_checks": 50, "dec_zombie_pages_seen": 10000},
 }
